@@ -1,6 +1,7 @@
 (* Spec/PrimSpec.v — what the primitive encodings MEAN (DWARF 5 §7.6, §7.4,
    gABI data representation).  Relations cover every valid encoding, including
    non-minimal LEB128. *)
+From Coq Require Import String.
 From PV Require Export Base.Bytes.
 
 (* unsigned LEB128: low 7 bits first, high bit = continuation *)
@@ -83,3 +84,26 @@ Fixpoint sleb_spec (bs : list Z) : option (Z * list Z) :=
            | None => None
            end
   end.
+
+(* ---- the named fixed-width integer fields of the two struct factories, from the standards:
+   DWARF: uintN / intN are N-bit unsigned / two's-complement, offset and length are 4 bytes in the
+   32-bit format and 8 in the 64-bit format (7.4), target addresses have the unit's address size;
+   gABI data representation: Elf32/64_Half = 2, Word = 4, Sword = signed 4, Xword = 4|8,
+   Sxword = signed 4|8, Addr and Off = 4|8 by class; all in the file's byte order *)
+Definition spec_dwarf_prims (le : bool) (fmt asz : Z) : list (String.string * (bool * Z * bool)) :=
+  let off := if Z.eqb fmt 32 then 4 else 8 in
+  [("Dwarf_uint8", (false, 1, le)); ("Dwarf_uint16", (false, 2, le)); ("Dwarf_uint24", (false, 3, le));
+   ("Dwarf_uint32", (false, 4, le)); ("Dwarf_uint64", (false, 8, le));
+   ("Dwarf_int8", (true, 1, le)); ("Dwarf_int16", (true, 2, le)); ("Dwarf_int32", (true, 4, le));
+   ("Dwarf_int64", (true, 8, le));
+   ("Dwarf_offset", (false, off, le)); ("Dwarf_length", (false, off, le));
+   ("Dwarf_target_addr", (false, asz, le))]%string.
+Definition spec_elf_prims (le : bool) (cls : Z) : list (String.string * (bool * Z * bool)) :=
+  let w := if Z.eqb cls 32 then 4 else 8 in
+  [("Elf_byte", (false, 1, le)); ("Elf_half", (false, 2, le)); ("Elf_word", (false, 4, le));
+   ("Elf_word64", (false, 8, le)); ("Elf_addr", (false, w, le)); ("Elf_offset", (false, w, le));
+   ("Elf_sword", (true, 4, le)); ("Elf_xword", (false, w, le)); ("Elf_sxword", (true, w, le))]%string.
+Definition all_dwarf_cfgs : list (bool * Z * Z) :=
+  flat_map (fun le => flat_map (fun f => map (fun a => (le, f, a)) [4; 8]) [32; 64]) [true; false].
+Definition all_elf_cfgs : list (bool * Z) :=
+  flat_map (fun le => map (fun c => (le, c)) [32; 64]) [true; false].
